@@ -209,3 +209,38 @@ func H_C17_map_kinds() {
 	}
 	vReach("end")
 }
+
+// group members declared before and after a nested object (and after a slice / map of them) belong to
+// the enclosing object; the nested objects' own groups stay theirs
+type vGAround struct {
+	A string          `valid:"either=1"`
+	X vG2             `valid:"exist"`
+	B string          `valid:"either=1"`
+	L []vG2           `valid:"exist"`
+	C int             `valid:"botheq=2"`
+	M map[string]*vG2 `valid:"exist"`
+	D int             `valid:"botheq=2"`
+}
+
+func H_C17_members_around_nested() {
+	o := &vGAround{A: vStr("A"), B: vStr("B"), C: vndInt("C"), D: vndInt("D"), X: vG2{A: vStr("XA"), Z: "z"}}
+	if vndBool("L") {
+		o.L = []vG2{{B: vStr("L0B"), Z: "z"}}
+	}
+	if vndBool("M") {
+		o.M = map[string]*vG2{"k": {A: vStr("MA"), Z: "z"}}
+	}
+	vRunGroups("C17 members before and after nested objects", o, true)
+}
+
+// the same through Map: a slice of maps, members in every element
+func H_C17_map_elems_independent() {
+	rm := NewRule().Set("a", "either=1").Set("b", "either=1").Set("c", "required")
+	m := []map[string]string{{"a": vStr("a0"), "b": vStr("b0"), "c": "c"}, {"a": vStr("a1"), "b": vStr("b1"), "c": "c"}, {"a": "", "b": "", "c": vStr("c2")}}
+	vULog = nil
+	err := Map(m, rm)
+	r := vNewRef()
+	vRefMap(r, m, rm)
+	vCheckUnordered("C17 Map([]map) three elements", err, r)
+	vReach("end")
+}
